@@ -64,6 +64,10 @@ func (q *c05kSeq) placeMarket(user int, buy bool, amt sdkmath.Int, lifespan time
 		need = lp.MulInt(amt).MulInt64(12).QuoInt64(10).Ceil().TruncateInt()
 	}
 	offer := sdk.NewCoin(offerDenom, need.MulRaw(102).QuoRaw(100).AddRaw(10))
+	if amt.ModRaw(41).IsZero() { // now and then far too little offer coin: ErrInsufficientOfferCoin
+		offer = sdk.NewCoin(offerDenom, sdkmath.NewInt(1))
+		q.tr.Count("k.market:short-offer")
+	}
 	msg := liqtypes.NewMsgMarketOrder(e.appID, e.users[user], e.pairID, dir, offer, demandDenom, amt, lifespan)
 	expire := q.now + int64(lifespan/time.Second)
 	before := pair
